@@ -234,7 +234,7 @@ pub fn run(eng: &mut Engine) {
         PartCfg::new(
             "lifecycle",
             "operation sequences add / remove(+publish) / publish / read-n / drain / advance over objects with max_transfer_count 1-4, carousel none/delay/interval (0-300 ms), allow-immediate-stop on/off, removal at arbitrary packet indexes; sender state (nb_objects, is_added, nb_transfers, get_objects_in_fdt) sampled after every read(); wire-level transfer counts from the reference decoder; per-transfer symbol, flag and removal rules shared with C08; non-trivial = >=2 transfers, a carousel object or a removal; distinct by case",
-            tier.pick(15_000, 500_000),
+            tier.pick(60_000, 1_200_000),
         ),
         move || strategy(tier),
         move |c| run_case(c, &known),
